@@ -42,6 +42,7 @@ var (
 	outDir     = flag.String("out", "", "output directory")
 	shimFile   = flag.String("shim", "", "vshim.go source to inject")
 	fullFields = flag.String("fullfields", "", "comma separated package paths whose struct fields are all instrumented")
+	rtFields   = flag.String("rtfields", "", "comma separated package paths: struct fields declared there that are assigned outside constructors / the parser are instrumented wherever they are used")
 	noTick     = flag.String("notick", "", "comma separated package paths that get no Tick()")
 	cacheDir   = flag.String("cache", "", "cache root: output goes to <cache>/<hash of inputs>; prints the directory")
 )
@@ -115,6 +116,11 @@ func main() {
 			fullSet[s] = true
 		}
 	}
+	for _, s := range strings.Split(*rtFields, ",") {
+		if s != "" {
+			rtSet[s] = true
+		}
+	}
 	noTickSet := map[string]bool{}
 	for _, s := range strings.Split(*noTick, ",") {
 		if s != "" {
@@ -146,6 +152,7 @@ func main() {
 		}
 	}
 	stats["pkgvars_ever_written"] = len(everWritten)
+	stats["fields_written_at_run_time"] = len(rtWritten)
 	for _, p := range pkgs {
 		if len(p.Errors) > 0 {
 			fmt.Fprintln(os.Stderr, "govis: package errors in", p.PkgPath, p.Errors)
@@ -233,7 +240,7 @@ func inputHash() string {
 	if b, err := os.ReadFile(*shimFile); err == nil {
 		h.Write(b)
 	}
-	fmt.Fprintln(h, *fullFields, *noTick, flag.Args())
+	fmt.Fprintln(h, *fullFields, *rtFields, *noTick, flag.Args())
 	if b, err := os.ReadFile(filepath.Join(*repo, "go.mod")); err == nil {
 		h.Write(b)
 	}
@@ -363,6 +370,38 @@ func syncObjKind(recv types.Type, method string) string {
 
 var everWritten = map[types.Object]bool{}
 
+// rtWritten: struct fields of the -rtfields packages (the AST node types) that some function other
+// than a constructor or the parser assigns: per-node caches, scratch buffers, memoised lookups. An
+// AST is shared by every coroutine and request that runs it, so such a field is shared mutable
+// state; fields only ever set while the tree is built stay uninstrumented (no cost).
+var rtWritten = map[types.Object]bool{}
+var rtSet = map[string]bool{}
+
+// fieldOf returns the struct field an lvalue like x.f, x.f[i], x.f[i:j], (*x).f designates.
+func fieldOf(info *types.Info, e ast.Expr) *types.Var {
+	for {
+		switch x := e.(type) {
+		case *ast.ParenExpr:
+			e = x.X
+		case *ast.IndexExpr:
+			e = x.X
+		case *ast.SliceExpr:
+			e = x.X
+		case *ast.StarExpr:
+			e = x.X
+		case *ast.SelectorExpr:
+			if s := info.Selections[x]; s != nil && s.Kind() == types.FieldVal {
+				if v, ok := s.Obj().(*types.Var); ok {
+					return v
+				}
+			}
+			return nil
+		default:
+			return nil
+		}
+	}
+}
+
 // rootVar returns the package-level variable an lvalue expression is rooted at (x, x.f, x[i].g,
 // pkg.X.f ...), or nil.
 func rootVar(info *types.Info, e ast.Expr) types.Object {
@@ -402,9 +441,16 @@ func collectWritten(p *packages.Package, f *ast.File) {
 		if !ok || fd.Body == nil || (fd.Recv == nil && fd.Name.Name == "init") {
 			continue
 		}
+		isCtor := fd.Recv == nil && (strings.HasPrefix(fd.Name.Name, "New") || strings.HasPrefix(fd.Name.Name, "new"))
+		buildTime := isCtor || strings.HasSuffix(p.PkgPath, "/parser") || strings.HasSuffix(p.PkgPath, "/lexer")
 		mark := func(e ast.Expr) {
 			if o := rootVar(info, e); o != nil {
 				everWritten[o] = true
+			}
+			if !buildTime {
+				if fv := fieldOf(info, e); fv != nil && fv.Pkg() != nil && rtSet[fv.Pkg().Path()] && !isSyncType(fv.Type()) {
+					rtWritten[fv] = true
+				}
 			}
 		}
 		ast.Inspect(fd.Body, func(n ast.Node) bool {
@@ -527,6 +573,11 @@ func (rw *rewriter) file(f *ast.File) {
 			if tv, ok := info.Types[idx.X]; ok {
 				if _, isMap := tv.Type.Underlying().(*types.Map); isMap {
 					writes[unparen(idx.X)] = true
+				} else if fv := fieldOf(info, idx.X); fv != nil && rtWritten[fv] {
+					// element store into a run-time scratch slice of an AST node: the field is the location
+					if sel, ok := unparen(idx.X).(*ast.SelectorExpr); ok {
+						writes[sel] = true
+					}
 				}
 			}
 			return
@@ -632,6 +683,9 @@ func (rw *rewriter) file(f *ast.File) {
 			_, isMap := fld.Type().Underlying().(*types.Map)
 			want := isMap
 			if !want && rw.full && fld.Pkg() != nil && fld.Pkg().Path() == rw.p.PkgPath {
+				want = true
+			}
+			if !want && rtWritten[fld] {
 				want = true
 			}
 			if !want {
